@@ -10,11 +10,13 @@ fields and truncated varints.
 Model: `Model/Payload` (handshake/payload.go on `Base/Wire` = protowire).  Schema: `Spec/HandshakeSchema`
 (handshake/handshake.proto read by a schema-driven decoder).  All theorems are unbounded.
 
-Not proved here (checked on every run by the correspondence oracle, class `schema-disagree`): for
-*arbitrary* bytes on which both decoders succeed, the results coincide.  What is proved is the
-property's statement: both directions on everything a writer can produce.
+`both_succeed_agree`: for ARBITRARY bytes — well-formed or not, any field order, repeated and split
+`Details` occurrences, unknown fields, groups, non-minimal varints — whenever both decoders succeed the
+results coincide; no exceptional set.  (The run-time oracle class `schema-disagree` checks the same
+statement on the real code on every run.)
 -/
 import Nebula.Lemmas.PayloadEnv
+import Nebula.Lemmas.PayloadAgree
 
 namespace Nebula.Props.C08
 open Nebula.Wire Nebula.Payload Nebula.Spec.HandshakeSchema
@@ -176,5 +178,40 @@ example : consumeVarint [0xff, 0xff, 0xff, 0xff, 0xff, 0xff, 0xff, 0xff, 0xff, 0
 example : consumeVarint [0x80, 0x80] = .error .truncated := by rfl
 example : unmarshalPayload [0x0a, 0x02, 0x10, 0x80] = .errDetails := by decide
 example : unmarshalPayload [0x0a, 0x02, 0x11, 0x80] = .errDetails := by decide
+
+/-- AGREEMENT ON ALL BYTE STRINGS.  For every byte string `b`: if `UnmarshalPayload` accepts it and the
+schema decoder (`handshake.proto` read by a schema-driven protobuf implementation) accepts it, they
+return the same Cert, InitiatorIndex, ResponderIndex, Time and CertVersion.  There is no exceptional set:
+repeated occurrences of the `Details` sub-message merge in both (an occurrence never wipes what earlier
+ones set — the statement seeded change C08-2 violates), later scalars override earlier ones in both,
+`Hmac`, `Cookie`, unknown fields and groups are skipped by both, and wherever the implementation is
+stricter (wrong wire type, `uint32` overflow) or the schema is (field numbers above 2^29−1) one of the
+two fails, which the hypothesis excludes. -/
+theorem both_succeed_agree (b : Bytes) (p : Payload) (m : Msg)
+    (h1 : unmarshalPayload b = .ok p) (h2 : decode b = some m) : p = toPayload m.details := by
+  unfold decode at h2
+  split at h2
+  · simp at h2
+  · rename_i ts hts
+    exact payloadLoop_agree (b.length + 1) (b.length + 1) {} b p ts m h1 hts h2
+
+/-- The same one level down: `unmarshalPayloadDetails` continuing from any payload agrees with the
+schema's record-by-record interpretation continuing from the same fields. -/
+theorem details_both_succeed_agree (d : Details) (b : Bytes) (p : Payload) (ts : List Tok)
+    (h1 : unmarshalDetails (toPayload d) b = .ok p) (h2 : tokenize (b.length + 1) b = some ts) :
+    p = toPayload (ts.foldl applyDetails d) :=
+  detailsLoop_agree _ _ d b p ts h1 h2
+
+-- non-vacuity: a split message (Details twice, the second one empty — the witness of C08-2) and a
+-- message with a repeated scalar are accepted by both, with the merged / last-wins result
+example : unmarshalPayload [0x0a, 0x02, 0x40, 0x07, 0x0a, 0x00] = .ok { certVersion := 7 } ∧
+    decode [0x0a, 0x02, 0x40, 0x07, 0x0a, 0x00] = some { hasDetails := true, details := { certVersion := 7 } } := by
+  decide
+
+example : unmarshalPayload [0x0a, 0x02, 0x10, 0x07, 0x0a, 0x04, 0x10, 0x08, 0x18, 0x03] =
+      .ok { initiatorIndex := 8, responderIndex := 3 } ∧
+    (decode [0x0a, 0x02, 0x10, 0x07, 0x0a, 0x04, 0x10, 0x08, 0x18, 0x03]).map (fun m => toPayload m.details) =
+      some { initiatorIndex := 8, responderIndex := 3 } := by
+  decide
 
 end Nebula.Props.C08
